@@ -44,6 +44,9 @@ def generate(lines, coqdir):
     # uteq: key 32*a+b -> Some (a == b as the crate's PartialEq says) | None (error / panic)
     rows = [f"({32 * int(p[0]) + int(p[1])}, {'Some ' + b(p[2]) if p[2] in ('0', '1') else 'None'})" for p in t.get("uteq", [])]
     s += "Definition impl_uteq : list (N * option bool) :=\n [" + ";".join(rows) + "].\n"
+    # answers that changed when the conversions were asked again in another order (none for a pure function)
+    rows = [f"({p[0]},{p[1]})" for p in t.get("lvlx", [])] + [f"({p[0]},999)" for p in t.get("profx", [])]
+    s += "Definition impl_order_dependent : list (N * N) :=\n [" + ";".join(rows) + "].\n"
     rows = [f'({p[0]},({p[1]},"{p[2]}",{b(p[3])},{p[4]}))' for p in t["prof"]]
     s += "Definition impl_prof : list (N * (N*string*bool*N)) :=\n [" + ";".join(rows) + "].\n"
     rows = [f"({p[0]},({b(p[1])},{b(p[2])},{b(p[3])},{b(p[4])},{b(p[5])},{b(p[6])},{p[7]},{p[8]}))" for p in t["cf"]]
